@@ -797,10 +797,79 @@ def run(ctx):
                 shutil.rmtree(p, ignore_errors=True) if os.path.isdir(p) else os.remove(p)
 
 
+def unvtext(s):
+    """inverse of vtext for the values the generators use"""
+    v, i = _parse_value(s, 0)
+    if i != len(s):
+        raise ValueError("trailing text in %r" % s)
+    return v
+
+
+def _parse_value(s, i):
+    from fractions import Fraction
+    import re
+    if s.startswith("null", i):
+        return None, i + 4
+    if s.startswith("true", i):
+        return True, i + 4
+    if s.startswith("false", i):
+        return False, i + 5
+    if s[i] == '"':
+        v, j = json.JSONDecoder().raw_decode(s, i)
+        return v, j
+    if s.startswith("float:", i):
+        m = re.compile(r"float:(-?inf|nan|-?\d+(?:/\d+)?)").match(s, i)
+        tok = m.group(1)
+        v = float(tok) if tok in ("inf", "-inf", "nan") else float(Fraction(tok))
+        return v, m.end()
+    if s[i] == "[":
+        out = []
+        i += 1
+        while s[i] != "]":
+            v, i = _parse_value(s, i)
+            out.append(v)
+            if s.startswith(", ", i):
+                i += 2
+        return out, i + 1
+    m = re.compile(r"-?\d+").match(s, i)
+    return int(m.group(0)), m.end()
+
+
+def table_from_obs(o):
+    import numpy as np
+    from biom import Table
+
+    def md(x):
+        return None if x is None else [{k: unvtext(v) for k, v in e.items()} for e in x]
+    arr = np.array([[float(core.unfrac(v)) for v in r] for r in o["rows"]], dtype=float).reshape(
+        len(o["obs"]), len(o["samp"]))
+    return Table(arr, o["obs"], o["samp"], md(o["omd"]), md(o["smd"]), type=o.get("type"))
+
+
 def replay(ctx, rec):
-    """re-evaluate a recorded request (the recorded real observation is re-judged by the driver)"""
+    """re-run the recorded input against the real code of the current tree"""
     case = rec["case"]
-    case = {k: v for k, v in case.items() if not k.startswith("_")}
-    r = ctx.driver.ask(case)
-    ctx.case(case, nontrivial=True)
-    report(ctx, case, r, ("replay",))
+    op = case["op"]
+    if op == "add":
+        t = table_from_obs(case["table"])
+        m = {i: {k: unvtext(v) for k, v in e.items()} for i, e in case["mapping"]}
+        check_add(ctx, t, m, case["axis"], ("replay",))
+    elif op == "del":
+        check_del(ctx, table_from_obs(case["table"]), case["keys"], case["axis"], ("replay",))
+    elif op == "parse":
+        check_parse(ctx, case["file"].get("gram"), case["file"]["lines"], case["opts"], case["header"],
+                    [tuple(p) for p in case["proc"]], "list", ("replay",))
+    elif op == "cli":
+        t = table_from_obs(case["table"])
+        files = {}
+        if case.get("sample"):
+            files["sample"] = case["sample"]
+        if case.get("obs"):
+            files["observation"] = case["obs"]
+        if case.get("via_file"):
+            check_cli_command(ctx, t, files, case["opts"], set(), case.get("_out", "json") == "json", "json",
+                              ("replay",))
+        else:
+            check_cli_worker(ctx, t, files, case["opts"], set(), ("replay",))
+    else:
+        raise ValueError(op)
